@@ -11,7 +11,7 @@ sys.path.insert(0, os.path.join(HERE, "reflect"))
 import build
 import gen_reflect
 
-PLAIN = [("h_session", "sched"), ("h_session", "sched-tsan"), ("h_session", "sched-asan"), ("h_queue", "sched"), ("h_queue", "sched-asan"),
+PLAIN = [("h_session", "sched"), ("h_session", "sched-tsan"), ("h_session", "sched-asan"), ("h_queue", "sched"), ("h_queue", "sched-asan"), ("h_stream", "sched"),
          ("h_seq_stream", "plain"), ("h_seq_stream", "plain-asan"), ("h_seq_queue", "plain"), ("h_seq_queue", "plain-asan"),
          ("h_resync", "sched-asan"), ("h_hist", "sched"), ("h_hist", "sched-asan")]
 REFL = [("h_codec", "plain"), ("h_codec", "plain-asan"), ("h_codec", "plain-init0"), ("h_codec", "plain-initpat"),
